@@ -640,6 +640,64 @@ func c01Short(op string) func(a *c01V) *c01V {
 
 var c01Not = c01Each(func(v *c01V) ([]*c01V, bool) { return []*c01V{c01Bool(!c01Truthy(v))}, true })
 
+var c01GroupBy = c01Each(func(v *c01V) ([]*c01V, bool) {
+	if v.k != 4 {
+		return nil, false
+	}
+	var groups []*c01V
+	for _, x := range v.items {
+		placed := false
+		for _, g := range groups {
+			if c01Eq(g.items[0], x) {
+				g.items = append(g.items, x)
+				placed = true
+				break
+			}
+		}
+		if !placed {
+			groups = append(groups, c01Seq(x))
+		}
+	}
+	return []*c01V{c01Seq(groups...)}, true
+})
+
+// c01Contains: sequence contains sequence — every element of b equals some element of a (scalars here)
+func c01Contains(a, b *c01V) (*c01V, bool) {
+	if a.k != 4 || b.k != 4 {
+		c01Open = true
+		return nil, false
+	}
+	for _, y := range b.items {
+		found := false
+		for _, x := range a.items {
+			if c01Eq(x, y) {
+				found = true
+			}
+		}
+		if !found {
+			return c01Bool(false), true
+		}
+	}
+	return c01Bool(true), true
+}
+
+var c01FromEntries = c01Each(func(v *c01V) ([]*c01V, bool) {
+	if v.k != 4 {
+		return nil, false
+	}
+	var keys []string
+	var items []*c01V
+	for _, e := range v.items {
+		if e.k != 5 || len(e.items) != 2 || e.items[0].k != 3 {
+			c01Open = true
+			return nil, true
+		}
+		keys = append(keys, e.items[0].s)
+		items = append(items, e.items[1])
+	}
+	return []*c01V{c01Map(keys, items)}, true
+})
+
 type c01Prog struct {
 	text string
 	ref  c01F
@@ -680,6 +738,15 @@ func c01Programs() []c01Prog {
 		{".b == 1 | not", c01Pipe(c01Bin(b, one, c01Cmp("==")), c01Not)}, {".a + [.b]", c01Bin(a, c01Collect(b), c01Add)}, {".a + .a", c01Bin(a, a, c01Add)}, {".m + {\"z\": .b}", c01Bin(m, c01Object("z", b), c01Add)}, {".m + {\"k\": .b}", c01Bin(m, c01Object("k", b), c01Add)},
 		{"\"x\" + .s", c01Bin(c01Lit(c01Str("x")), s, c01Add)}, {".m + .b", c01Bin(m, b, c01Add)}, {".a[] - .m", c01Bin(ai, m, c01Arith("-"))}, {".a.k", c01Pipe(a, c01Key("k"))},
 		{".a | map(. * 2) | reverse", c01Pipe(a, c01Pipe(c01MapF(c01Bin(c01Self, c01Lit(c01Int(2)), c01Arith("*"))), c01Reverse))}, {"[.a[] | select(. != 0)] | length", c01Pipe(c01Collect(c01Pipe(ai, c01Select(c01Bin(c01Self, c01Lit(c01Int(0)), c01Cmp("!="))))), c01Length)},
+		{".a | group_by(.)", c01Pipe(a, c01GroupBy)}, {"[.a[], .b, .a[]] | group_by(.) | length", c01Pipe(c01Collect(c01Union(c01Union(ai, b), ai)), c01Pipe(c01GroupBy, c01Length))},
+		{".a | contains([1])", c01Bin(a, c01Collect(one), c01Contains)}, // the argument of contains is evaluated on the current node (the sequence), where a key step is an error
+		{"[.a[], .b] | contains([.b])", c01Pipe(c01Collect(c01Union(ai, b)), c01Bin(c01Self, c01Collect(b), c01Contains))}, {".a | contains(.e)", c01Pipe(a, c01Bin(c01Self, c01Key("e"), c01Contains))},
+		{".e as $e | .a | contains($e)", c01Var(c01Key("e"), func(x *c01V) c01F { return c01Pipe(a, c01Bin(c01Self, c01Lit(x), c01Contains)) })},
+		{".b as $x | [.a[], .b] | contains([$x])", c01Var(b, func(x *c01V) c01F {
+			return c01Pipe(c01Collect(c01Union(ai, b)), c01Bin(c01Self, c01Collect(c01Lit(x)), c01Contains))
+		})},
+		{".m | to_entries | from_entries", c01Pipe(m, c01Pipe(c01ToEntries, c01FromEntries))}, {".m | with_entries(.)", c01Pipe(m, c01Pipe(c01ToEntries, c01FromEntries))},
+		{".m | with_entries(select(.value > 1))", c01Pipe(m, c01Pipe(c01ToEntries, c01Pipe(c01MapF(c01Select(c01Bin(c01Key("value"), one, c01Cmp(">")))), c01FromEntries)))},
 		{"[.a[], .b] | unique | length", c01Pipe(c01Collect(c01Union(ai, b)), c01Pipe(c01Unique, c01Length))}, {".a | reverse | .[0]", c01Pipe(a, c01Pipe(c01Reverse, c01Index(0)))},
 	}
 }
